@@ -100,3 +100,27 @@ Proof.
   - intros v n Hn Hp. rewrite ix_sort_intv_eq. apply ix_isort_prefix; assumption.
   - intros H. unfold ix_sort_intv. rewrite H. reflexivity.
 Qed.
+
+(** ** the public Chunks: the index's MergeStrategy applied to the raw answer *)
+Lemma ix_chunks_sorted ix rid beg end_ cs :
+  fst (ix_chunks ix rid beg end_) = Ok cs -> key_sorted fst cs.
+Proof.
+  unfold ix_chunks. destruct ((rid <? 0) || (rid >=? zlen (irefs ix))); [discriminate|]. cbn [fst].
+  unfold ix_chunks_of. destruct (_ >=? _); [discriminate|]. unfold chk. destruct (0 <=? _); [|discriminate].
+  intros H. inversion H. apply ix_isort_sorted.
+Qed.
+
+Theorem bai_complete_public_gen s :
+  ix_strategy_covers s ->
+  forall rs ix, ix_wf rs -> ix_bins_ok rs -> reach rs ix ->
+  forall rid beg end_ r, 0 <= beg < end_ -> end_ <= 2 ^ 29 ->
+    In r rs -> ix_overlaps r rid beg end_ ->
+    exists cs, fst (ix_chunks ix rid beg end_) = Ok cs /\ ix_covers (s cs) r.
+Proof.
+  intros Hs rs ix W B Hre rid beg end_ r Hq Hq2 Hr Ho.
+  destruct (bai_complete_reach bai_bin_containment_holds rs ix W B Hre rid beg end_ r Hq Hq2 Hr Ho)
+    as (cs & E & (c & Hc & H1 & H2)).
+  exists cs. split; [exact E|].
+  destruct (Hs cs c (key_sorted_begin cs (ix_chunks_sorted _ _ _ _ _ E)) Hc) as (c' & Hc' & A & A').
+  exists c'. split; [exact Hc'|lia].
+Qed.
